@@ -204,4 +204,12 @@ theorem threaded_assembler_state_inventory :
       (["self._next_expected", "self._status_block_segments", "self._next_expected", "self.had_at_least_one_block"],
        ["self._status_block_segments.append", "self.replace_status_block_segment"]) := by decide +kernel
 
+/-- **a transfer holds the connection for ALL its attempts**: the event streams above contain segments of THIS transfer only; that is
+so because `get` takes the connection lock once, outside its retry loop, and transmits only while holding it (over the regenerated
+skeleton) - a second transfer cannot run between two attempts of the first and pick up a late segment of its chain -/
+theorem transfer_holds_the_connection_for_all_its_attempts :
+    Coop.atMostOnce (fun a => a.kind == .acquired && a.name == "protocol.Lock") Skeletons.sk_driver_async_spastruct__GeckoAsyncStructure_get = true ∧
+    Coop.alwaysHeld (fun a => a.kind == .acquired && a.name == "protocol.Lock") (fun a => a.kind == .release && a.name == "protocol.Lock")
+      (fun a => a.kind == .call && a.name == "queue_send") Skeletons.sk_driver_async_spastruct__GeckoAsyncStructure_get = true := by decide +kernel
+
 end GeckoModel.C01
